@@ -48,6 +48,9 @@ macro_rules! harnesses {
     };
 }
 
+/// largest single write the sink accepts
+pub const MAXW: usize = 8;
+
 /// fixed-size sink implementing io::Write without heap allocation
 pub struct Sink<const N: usize> {
     pub buf: [u8; N],
@@ -70,21 +73,39 @@ impl<const N: usize> Sink<N> {
 
 impl<const N: usize> std::io::Write for Sink<N> {
     fn write(&mut self, data: &[u8]) -> std::io::Result<usize> {
-        let mut i = 0;
-        while i < data.len() {
-            if self.len < N {
-                self.buf[self.len] = data[i];
-                self.len += 1;
-            } else {
-                self.overflow = true;
+        let n = data.len();
+        if n <= N - self.len && n <= MAXW {
+            // constant-bounded guarded byte copies: cheaper for the solver than a memcpy of
+            // symbolic length at a symbolic offset, and no loop bound depends on the data
+            let mut i = 0;
+            while i < MAXW {
+                if i < n {
+                    self.buf[self.len + i] = data[i];
+                }
+                i += 1;
             }
-            i += 1;
+            self.len += n;
+        } else {
+            self.overflow = true;
         }
-        Ok(data.len())
+        Ok(n)
+    }
+    fn write_all(&mut self, data: &[u8]) -> std::io::Result<()> {
+        // overridden: the default implementation is a retry loop that the model checker would
+        // have to unroll to the global bound at every call site
+        let _ = self.write(data);
+        Ok(())
     }
     fn flush(&mut self) -> std::io::Result<()> {
         Ok(())
     }
+}
+
+/// `r.unwrap()` without running the drop glue of io::Error
+#[inline]
+pub fn ok<T>(r: std::io::Result<T>) {
+    assert!(r.is_ok(), "writer returned an error");
+    std::mem::forget(r);
 }
 
 /// slice equality as an explicit loop (bounded by the caller's unwind)
